@@ -63,6 +63,27 @@ def main():
                     failed.add(k)
         base = set(json.load(open("/root/.vp/BASELINE.json"))["stable_pass"])
         missing = sorted(base - passed)
+        # timing-sensitive tests can fail when the machine is loaded: re-run each one alone (up to 3 times)
+        retried = {}
+        for k in list(missing):
+            pkg, test = k.split("::")
+            top = test.split("/")[0]
+            for attempt in range(3):
+                rc, out = sh(f"go test -mod=mod -json -vet=off -count=1 -timeout 10m -run '^{top}$' {pkg}", wt, timeout=900)
+                ok = False
+                for line in out.splitlines():
+                    try:
+                        ev = json.loads(line)
+                    except Exception:
+                        continue
+                    if ev.get("Test") == test and ev.get("Action") == "pass":
+                        ok = True
+                if ok:
+                    retried[k] = attempt + 1
+                    missing.remove(k)
+                    passed.add(k)
+                    break
+        meta["suite_retried_alone"] = retried
         meta["suite_with_change"] = {"baseline": len(base), "baseline_passing": len(base & passed), "baseline_not_passing": missing[:20]}
         # demo with change
         shutil.copy(os.path.join(sd, "demo_test.go.txt"), os.path.join(wt, dest))
